@@ -14,7 +14,8 @@ EXTENDS Krill, Sequences, SequencesExt, Json, IOUtils
 
 Rec == ndJsonDeserialize(IOEnv.TRACE)
 
-TraceRoa == {"p1", "p2", "p3"} \X {"a1", "a2", "a0"}
+TraceAspa == {"a1", "a2"} \X {"prov:a2", "prov:a3", "prov:a2+a3", "prov:a1", "prov:a1+a3"}
+TraceRoa == ({"p1", "p2", "p3"} \X {"a1", "a2", "a0"}) \cup TraceAspa
 TraceParentOf == [c \in Sub |-> Top]   \* not used by the trace actions
 
 VARIABLES
@@ -178,6 +179,14 @@ TRoaDelta == IsEvent("RoaDelta") /\ Ok
           /\ RoaDelta(Args.c, {RoaOfStr(x) : x \in SetOf(Args.add)},
                                {RoaOfStr(x) : x \in SetOf(Args.del)})
           /\ Projected(Line.abs)
+ProvLabel(p) == IF Len(p) = 1 THEN "prov:" \o p[1] ELSE "prov:" \o p[1] \o "+" \o p[2]
+TAspaSet == IsEvent("AspaSet") /\ Ok /\ Args.prov # <<>>
+          /\ LET x == <<Args.cust, ProvLabel(Args.prov)>>
+             IN  \/ AspaSet(Args.c, x)
+                 \/ (x \in routes[Args.c] /\ UNCHANGED vars)
+          /\ Projected(Line.abs)
+TAspaDel == IsEvent("AspaSet") /\ Ok /\ Args.prov = <<>>
+          /\ AspaDel(Args.c, Args.cust) /\ Projected(Line.abs)
 TRollInit == IsEvent("RollInit") /\ Ok
           /\ RollInit(Args.c) /\ Projected(Line.abs)
 \* initiating a roll when no class is in the active state does nothing
@@ -200,7 +209,7 @@ TRepoSyncAll == IsEvent("RepoSyncAll") /\ Ok /\ RepoSyncAll /\ Projected(Line.ab
 TRefused ==
     /\ l <= Len(Rec)
     /\ Line.ev \in {"AddCa", "ChildRes", "ChildSuspend", "ChildUnsuspend",
-                    "ChildRemove", "RoaAdd", "RoaDel", "RoaDelta", "RollInit",
+                    "ChildRemove", "RoaAdd", "RoaDel", "RoaDelta", "AspaSet", "RollInit",
                     "RollActivate", "DeleteCa"}
     /\ IsError /\ l' = l + 1 /\ rp' = Line.rp
     /\ ObserveKeys(Line.abs.keys) /\ mark' = mark /\ regime' = regime
@@ -304,7 +313,7 @@ TraceNext ==
     \/ Reset \/ Setup
     \/ TAddCa \/ TChildRes \/ TChildResSame \/ TChildSuspend \/ TChildSuspendNoop
     \/ TChildUnsuspend \/ TChildUnsuspendNoop \/ TChildRemove
-    \/ TRoaAdd \/ TRoaDel \/ TRoaDelta \/ TRollInit \/ TRollInitNoop
+    \/ TRoaAdd \/ TRoaDel \/ TRoaDelta \/ TAspaSet \/ TAspaDel \/ TRollInit \/ TRollInitNoop
     \/ TRollActivate \/ TRollActivateNoop \/ TDeleteCa \/ TRefresh
     \/ TRefused \/ TStep \/ TSettled \/ TPubRemove \/ TPubAdd \/ TRepoSyncAll
     \/ TRepublish \/ TRenew \/ TRestart \/ TDueTouch \/ TRepublishByMargin \/ TExpectByMargin \/ TMark \/ TExpectSame \/ TExpectReissued \/ TExpectRenewed
